@@ -29,11 +29,23 @@ Proof. exact admits_iff_binds. Qed.
 Print Assumptions C17_admits_iff_binds.
 
 (* fromMethod / fromFunction(imlevel=1): the signature computed for a function reached through
-   an instance binds k arguments exactly when the raw function binds self + k arguments *)
-Theorem C17_self_stripped_binds : forall raw sh, req raw <= npos raw -> 1 <= npos raw ->
+   an instance binds k arguments exactly when the raw function binds instance + k arguments,
+   whether the instance lands in a first parameter or in *args *)
+Theorem C17_self_stripped_binds : forall raw sh, req raw <= npos raw ->
+  (1 <= npos raw \/ varargs raw = true) ->
   (binds (from_function raw 1) sh <-> binds raw (S (fst sh), snd sh)).
 Proof. exact binds_from_method. Qed.
 Print Assumptions C17_self_stripped_binds.
+
+(* NOT covered by the property's quantifier ("with self"), stated so that nothing is hidden: a
+   def with no positional parameter and no *args - def m() or def m( **kw ) in a class body - cannot
+   be called through an instance with any shape, yet verification accepts it for def m() *)
+Theorem C17_selfless_method_accepted_refuted :
+  exists iface raw, req iface <= npos iface /\ req raw <= npos raw /\ npos raw = 0 /\ varargs raw = false /\
+    incompat iface (from_function raw 1) = None /\
+    (forall sh, ~ call_binds true raw sh).
+Proof. exact selfless_method_accepted. Qed.
+Print Assumptions C17_selfless_method_accepted_refuted.
 
 (* the finite enumeration used by the executable Spec (and by the run-time oracle) loses
    nothing: checking arities up to one more than every positional parameter decides all shapes *)
@@ -47,7 +59,7 @@ Print Assumptions C17_bounded_shapes_suffice.
 (* verification succeeds iff the candidate declares the interface (unless tentative), every
    named attribute is there, methods are callable, and every admitted call shape binds to every
    implementation whose signature can be introspected.  [elem_wf]: signatures come from real
-   defs (req <= npos; a function reached through an instance has a first parameter). *)
+   defs (req <= npos; a function reached through an instance has a first parameter or *args). *)
 Theorem C17_verify_success_iff : forall vt tentative declares cand_is_type elems,
   Forall (elem_wf vt cand_is_type) elems ->
   (verify incompat vt tentative declares cand_is_type elems = Ok <->
@@ -90,6 +102,12 @@ Print Assumptions C17_outcome_by_failure_count.
 Example ex_compatible :
   incompat (mkSig 1 2 true true) (from_function (mkSig 2 2 true true) 1) = None.
 Proof. vm_compute. reflexivity. Qed.
+
+(* def m(a) against a method def m( *args ): the instance is absorbed by *args *)
+Example ex_instance_in_varargs :
+  incompat (mkSig 1 1 false false) (from_function (mkSig 0 0 true false) 1) = None /\
+  elem_wf VObject false (0, DMethod (mkSig 1 1 false false), VMethod (mkSig 0 0 true false)).
+Proof. split; [vm_compute; reflexivity|apply elem_wfb_sound; vm_compute; reflexivity]. Qed.
 
 (* each of the four complaints is reachable *)
 Example ex_complaints :
